@@ -57,6 +57,7 @@ class C05(Prop):
             force = {"n_vars": rng.choice([2, 3]), "depth": rng.choice([2, 3])}
         cfg = G.gen_config(rng, tier, **force)
         cfg["kinds"] = ["list"]
+        cfg["allow_nodom"] = True
         region = campaign.split(":", 1)[1] if campaign.startswith("known:") else None
         if campaign in ("rules", "known:rule_tree_with_alternative_or_next"):
             cfg["vocab"] = [v for v in cfg["vocab"] if v not in ("forall", "kw", "nest", "flat")]
